@@ -291,6 +291,9 @@ def _check_frame(E, c, mods, fr, prop, fname, st, env, entry, kindname):
                     allowed.setdefault(key, []).append(base.t)
         elif isinstance(node, ast.Call) and node.func.id == "ITER":
             continue
+        elif isinstance(node, ast.Call) and node.func.id == "LISTS":
+            whole.add(E.lkey(parse_kind(ast.unparse(node.args[0]))))
+            continue
         elif isinstance(node, ast.Call) and node.func.id == "items":
             base = E.spec_value(node.args[0], entry, env, entry)
             if base.kind.tag == "list":
